@@ -25,7 +25,7 @@ PY
 import re, sys
 f = sys.argv[1]
 s = open(f).read()
-s = re.sub(r'["\']/tmp/mut2?_C\d\d/?["\']', '(__import__("os").environ.get("TREE_UNDER_TEST", "/repo") + "/")', s)
+s = re.sub(r'["\']/tmp/mut\d?_C\d\d/?["\']', '(__import__("os").environ.get("TREE_UNDER_TEST", "/repo") + "/")', s)
 open(f, "w").write(s)
 PY
   echo "KEPT $ID"
